@@ -470,7 +470,9 @@ func sm2P256PointAdd(x1, y1, z1, x2, y2, z2, x3, y3, z3 *sm2P256FieldElement) {
 
 	if sm2P256ToBig(&u1).Cmp(sm2P256ToBig(&u2)) == 0 &&
 		sm2P256ToBig(&s1).Cmp(sm2P256ToBig(&s2)) == 0 {
-		sm2P256PointDouble(x1, y1, z1, x1, y1, z1)
+		// equal points: the generic formula below degenerates (h = 0); the sum is the double
+		sm2P256PointDouble(x3, y3, z3, x1, y1, z1)
+		return
 	}
 
 	sm2P256Sub(&h, &u2, &u1) // h = u2 - u1
@@ -532,7 +534,9 @@ func sm2P256PointSub(x1, y1, z1, x2, y2, z2, x3, y3, z3 *sm2P256FieldElement) {
 
 	if sm2P256ToBig(&u1).Cmp(sm2P256ToBig(&u2)) == 0 &&
 		sm2P256ToBig(&s1).Cmp(sm2P256ToBig(&s2)) == 0 {
-		sm2P256PointDouble(x1, y1, z1, x1, y1, z1)
+		// equal points: the generic formula below degenerates (h = 0); the sum is the double
+		sm2P256PointDouble(x3, y3, z3, x1, y1, z1)
+		return
 	}
 
 	sm2P256Sub(&h, &u2, &u1) // h = u2 - u1
